@@ -2,7 +2,7 @@
 """import_harmless.py <out_dir> <tag>: copies h<k>.diff/.json (behaviour-preserving refactorings written by an independent
 sub-agent) into tests/mutants/<tag>_h<k>/ with expect=clean and the property chosen from the touched file"""
 import sys, os, json, glob, shutil, re
-MAP = [("fungible/storage.rs", "C01"), ("capped", "C16"), ("allowlist", "C16"), ("blocklist", "C16"), ("vault/", "C05"), ("rwa/storage.rs", "C04"),
+MAP = [("examples/timelock-controller", "C09"), ("examples/fungible-vault", "C05"), ("examples/fungible-merkle-airdrop", "C17"), ("examples/fee-forwarder", "C19"), ("examples/nft-access-control", "C06"), ("examples/multisig-smart-account/account", "C03"), ("examples/fungible-allowlist", "C16"), ("examples/upgradeable", "C16"), ("base64_url", "C18"), ("i256_fixed_point", "C12"), ("fungible/extensions/votes", "C13"), ("fungible/storage.rs", "C01"), ("capped", "C16"), ("allowlist", "C16"), ("blocklist", "C16"), ("vault/", "C05"), ("rwa/storage.rs", "C04"),
        ("access_control", "C06"), ("ownable", "C07"), ("role_transfer", "C07"), ("timelock", "C08"), ("governance/src/votes", "C13"),
        ("non_fungible/storage.rs", "C11"), ("enumerable", "C10"), ("consecutive", "C10"), ("claim_topics_and_issuers", "C20"), ("token_binder", "C20"),
        ("identity_verifier", "C15"), ("identity_registry_storage", "C20"), ("simple_threshold", "C14"), ("upgradeable", "C16"), ("compliance", "C04"), ("math/", "C12"), ("claim_issuer", "C15"), ("smart_account", "C03"), ("spending_limit", "C14"), ("weighted_threshold", "C14"),
